@@ -182,7 +182,7 @@ fn handle(w: &str, c: char) -> Option<usize> {
 pub fn handle_positions(verb: &str) -> &'static [usize] {
     match verb {
         "remove" | "setref" | "move" | "copy" | "#twin" => &[1, 2],
-        "reset" | "newmodel" | "mkfile" | "sortm" | "lookup" | "refs" | "checkrefs" | "dump" | "rmfile" | "#dup" | "compat" | "setver" | "load" | "ser" | "dfsf" => &[],
+        "reset" | "newmodel" | "mkfile" | "sortm" | "lookup" | "refs" | "checkrefs" | "dump" | "rmfile" | "#dup" | "dup" | "compat" | "setver" | "load" | "ser" | "dfsf" => &[],
         _ => &[1],
     }
 }
@@ -191,7 +191,7 @@ pub fn is_mutating(verb: &str) -> bool {
     matches!(
         verb,
         "reset" | "newmodel" | "mkfile" | "create" | "named" | "remove" | "rename" | "cdata" | "rmcdata" | "instext" | "rmtext" | "setref" | "attr"
-            | "attrs" | "rmattr" | "move" | "copy" | "sort" | "sortm" | "comment" | "addfile" | "rmfromfile" | "rmfile" | "setver" | "load" | "ser"
+            | "attrs" | "rmattr" | "move" | "copy" | "sort" | "sortm" | "comment" | "addfile" | "rmfromfile" | "rmfile" | "setver" | "load" | "ser" | "dup"
     )
 }
 
@@ -382,6 +382,33 @@ impl World {
                         let mut s = String::from("ok");
                         for (_, e) in c.elements_dfs() {
                             let _ = write!(s, " e{}", self.reg(&e));
+                        }
+                        s
+                    }
+                    Err(e) => errs(&e),
+                }
+            }
+            "dup" if n == 2 => {
+                let (_, m) = self.h_model(w[1])?;
+                match m.duplicate() {
+                    Ok(c) => {
+                        self.models.push(c.clone());
+                        self.root_id.push(None);
+                        let km = self.models.len() - 1;
+                        let mut s = format!("ok m{km}");
+                        let files: Vec<ArxmlFile> = c.files().collect();
+                        for f in files.iter() {
+                            self.files.push(f.clone());
+                            let _ = write!(s, " f{}", self.files.len() - 1);
+                        }
+                        if !files.is_empty() {
+                            for (d, e) in c.elements_dfs() {
+                                let r = self.reg(&e);
+                                if d == 0 {
+                                    self.root_id[km] = Some(r);
+                                }
+                                let _ = write!(s, " e{r}");
+                            }
                         }
                         s
                     }
@@ -794,6 +821,8 @@ fn first_difference(a: &str, b: &str) -> (String, String) {
 const SIG_COLLISION: &str = "c04:container-move-copy-collision";
 const SIG_DUP_DOC: &str = "c04:document-with-duplicate-paths-accepted";
 const SIG_EMPTY_SN_C04: &str = "c04:empty-short-name-element-not-indexed";
+const SIG_SN_NOT_FIRST: &str = "c04:short-name-not-first-accepted";
+const SIG_DUP_MIXED: &str = "c13:duplicate-of-model-with-files-of-different-versions";
 const SIG_ANCESTOR: &str = "c12:move-to-ancestor-parent-locked";
 const SIG_MIXED_C03: &str = "c03:mixed-set-cdata-drops-children";
 const SIG_MIXED_C04: &str = "c04:mixed-set-cdata-drops-children";
@@ -1548,11 +1577,19 @@ impl Checker {
         match quiet(|| m.duplicate()) {
             Some(Ok(d)) => {
                 *self.counts.entry("oracle.c13_duplicates_compared").or_insert(0) += 1;
+                // files of different versions: the copy is made in the LOWEST version (content the other files' versions allow is
+                // dropped) and the file sets are then transferred by position of two iterations that no longer run in step
+                let mixed_versions = {
+                    let vs: HashSet<u32> = m.files().map(|f| f.version() as u32).collect();
+                    vs.len() > 1 && m.elements_dfs().count() != d.elements_dfs().count()
+                };
                 for f in m.files() {
                     let other = d.files().find(|x| x.filename() == f.filename());
                     let same = other.as_ref().is_some_and(|o| file_ser(o).ok() == file_ser(&f).ok());
                     if !same && self.root_decorated(k, false) {
                         out.push(Failure::known("C13", SIG_DUP_ROOT, format!("duplicate() of m{k}: <AUTOSAR> carries a comment / non-default attributes, file {:?} serializes differently in the duplicate", f.filename())));
+                    } else if !same && mixed_versions {
+                        out.push(Failure::known("C13", SIG_DUP_MIXED, format!("duplicate() of m{k}: the files have different versions and the duplicate has fewer elements; file {:?} serializes differently in the duplicate", f.filename())));
                     } else if !same {
                         out.push(Failure::new("C13", "dup-text", format!("duplicate() of m{k}: file {:?} serializes differently in the duplicate (or is missing)", f.filename())));
                     }
@@ -1883,6 +1920,11 @@ impl Checker {
                     // c08:empty-short-name-accepted) has the path "" and no index entry
                     let first = v.remove(0);
                     v = vec![Failure::known("C04", SIG_EMPTY_SN_C04, format!("after `{}` (an element with an EMPTY SHORT-NAME is part of the model): {}", req.chars().take(60).collect::<String>(), first.msg))];
+                } else if !v.is_empty() && snaps.iter().any(|s| s.pre.iter().any(|(_, e, _)| e.sub_elements().skip(1).any(|c| c.element_name() == ElementName::ShortName))) {
+                    // a SHORT-NAME that is not the first sub-element (the loader does not check the order of a sequence: known
+                    // finding c04:short-name-not-first-accepted): the element has no item name, the index holds a path for it
+                    let first = v.remove(0);
+                    v = vec![Failure::known("C04", SIG_SN_NOT_FIRST, format!("after `{}` (an element whose SHORT-NAME is not its first sub-element is part of the model): {}", req.chars().take(60).collect::<String>(), first.msg))];
                 } else if !v.is_empty() && container_op {
                     let first = v.remove(0);
                     v = vec![Failure::known("C04", SIG_COLLISION, format!("after `{req}` (subject is not identifiable): {}", first.msg))];
@@ -3606,6 +3648,13 @@ impl Gen {
         }
         if self.kind == Kind::Copy && self.rng.chance(1, 2) {
             self.req("#dup m0".to_string());
+            if self.rng.chance(2, 3) {
+                let k = self.rng.below(self.ck.w.models.len());
+                self.m(format!("dup m{k}"));
+                for _ in 0..4 {
+                    self.random_op();
+                }
+            }
             // a few edits of the original after duplicating
             for _ in 0..3 {
                 self.random_op();
